@@ -332,6 +332,11 @@ class Docs(Space):
         for i in range(len(ids)):
             if ids[i]:
                 yield (ci, ids[:i] + (0,) + ids[i + 1:], w)
+        # (appended later) ... or by any earlier sentence of the pool: one root cause (the short-line merge) otherwise shows up once per
+        # combination of the later sentences
+        for i in range(len(ids)):
+            for j in range(1, ids[i]):
+                yield (ci, ids[:i] + (j,) + ids[i + 1:], w)
 
     def evaluate(self, case):
         ci, ids, w = case
